@@ -50,6 +50,22 @@ class PieModel:
             self._fields[c] = f
         return self._fields[c]
 
+    def loaded_fields(self, c):
+        """what an instance the ORM loaded has: SQLAlchemy does not run __init__ on load, so only names defined at class level somewhere in
+        the MRO (columns, relationships, properties, methods) and attributes stored by a @reconstructor method exist - a plain attribute
+        that only __init__ stores (self._archive_date = None) is absent on every object that came out of a query"""
+        f = set()
+        for b in self.bases(c):
+            f |= self.loaded_fields(b)
+        for n in self.classes[c].body:
+            if isinstance(n, ast.Assign):
+                f |= {t.id for t in n.targets if isinstance(t, ast.Name)}
+            elif isinstance(n, ast.FunctionDef):
+                f.add(n.name)
+                if any((dotted(d) or '').split('.')[-1] == 'reconstructor' for d in n.decorator_list):
+                    f |= {m.attr for m in walk_local(n) if is_self_attr(m) and isinstance(m.ctx, ast.Store)}
+        return f
+
     def has(self, c, field):
         return field in self.fields(c)
 
